@@ -478,7 +478,6 @@ func (f *DefaultFanController) calculateTargetPwm() (int, error) {
 				ui.Warning("Increasing minPWM of %s from %d to %d, which is supposed to never stop, but RPM is %d at PWM %d",
 					fan.GetId(), oldMinPwm, oldMinPwm+1, int(avgRpm), lastSetPwm)
 				f.increaseMinPwmOffset()
-				fan.SetMinPwm(f.minPwmOffset, true)
 				target++
 
 				// set the moving avg to a value > 0 to prevent
